@@ -774,8 +774,10 @@ func (db *DB) CheckpointNoLock(ctx context.Context) (err error) {
 // readWALPageOffsets returns a map of the offsets of the last committed version
 // of each page in the WAL. Also returns the commit size of the last transaction.
 func (db *DB) readWALPageOffsets(f *os.File) (_ map[uint32]int64, lastCommit uint32, _ error) {
+	// A header that is missing, partial or invalid (magic, version, checksum)
+	// means the WAL holds no valid frames.
 	r := NewWALReader(f)
-	if err := r.ReadHeader(); err == io.EOF {
+	if err := r.ReadHeader(); err != nil {
 		return nil, 0, nil
 	}
 
